@@ -107,6 +107,7 @@ pub fn c08_step(cx: &StepCtx<'_, impl Sized>, info: &InputInfo, conn_pre: Conn, 
     let mut dr: Vec<&N<Id>> = cx.out.notes().filter(|n| matches!(n, N::Defunct | N::Rejoin(_))).collect();
     dr.reverse();
     let mut deaths = 0usize;
+    let dr_total = dr.len();
     let mut consume = |cur: &mut (Id, u16), why: &str| -> Result<(), Viol> {
         match dr.pop() {
             None => Err(viol("c08:missing-defunct-or-rejoin", format!("input contains {why} for the current identity {} but neither Defunct nor Rejoin was notified", cur.0.show()))),
@@ -162,6 +163,12 @@ pub fn c08_step(cx: &StepCtx<'_, impl Sized>, info: &InputInfo, conn_pre: Conn, 
                 if info.turn_undead && info.sender_active {
                     let connected = !died && conn_pre != Conn::Defunct && !post.active.is_empty() && cx.out.res != Res::Err(ErrKind::CustomBroadcast) && cx.out.res != Res::Err(ErrKind::MalformedPacket);
                     if connected {
+                        deaths += 1;
+                        consume(&mut cur, "TurnUndead")?;
+                    } else if dr_total > deaths {
+                        // not connected when the message was reached: the
+                        // property leaves open whether it still counts as
+                        // "learning"; either outcome is accepted
                         deaths += 1;
                         consume(&mut cur, "TurnUndead")?;
                     }
